@@ -188,6 +188,27 @@ def hmc_progress(ctx, nc, nd):
               expected='RunStats computed by tracker.stats(<the returned sample>)', found='%d stats call(s)' % len(st), sp=sp, why='diagnostics must equal those computed from the returned draws')
 
 
+def reporter_signature(ev, rl):
+    """canonical summary of the reporter's polling loop and the loops inside it: per loop (kind, depth, trip count, exits,
+    next-value of every carried place), with loop / iteration / channel numbering replaced by order of appearance"""
+    loops = [rl] + [ls for ls in ev.vf.loops if rl.uid in ls.ctx]
+    ids = {}
+
+    def canon(txt):
+        def rep(m):
+            key = (m.group(1), m.group(2))
+            if key not in ids:
+                ids[key] = len([k for k in ids if k[0] == m.group(1)])
+            return '%s%d' % (m.group(1), ids[key])
+        txt = txt.replace('chains_mut(self)', 'CHAINS').replace('.chains(self)', 'CHAINS').replace('self.chains', 'CHAINS')      # the two runners reach their chains differently
+        return re.sub(r'\b(lh|lx|it|loop|acc|channel#|lhc|k#\w*?)(\d+)', rep, txt)
+    out = []
+    for ls in loops:
+        nxt = sorted((canon(keyrepr(k)), canon(show(ls.next[k])) if isinstance(ls.next[k], T.Tm) else str(type(ls.next[k]).__name__)) for k in ls.lh)
+        out.append((ls.kind, len(ls.ctx), canon(show(ls.n)) if ls.n is not None else None, tuple(canon(show(e[2])) for e in ls.exits), tuple(nxt)))
+    return out
+
+
 def find_spawn_closure(ctx, body):
     out = []
 
@@ -206,6 +227,7 @@ def reporters(ctx, nc, nd):
     bs = {'core': ctx.anchor('ChainRunner::run_progress', name='run_progress', trait='core::ChainRunner', container='trait'),
           'nuts': ctx.anchor('NUTS::run_progress', name='run_progress', self_head='nuts::NUTS', container='inherent')}
     canon = {}
+    sigs = {}
     for tag, b in bs.items():
         A = {'core': 'ChainRunner::run_progress', 'nuts': 'NUTS::run_progress'}[tag]
         if b is None:
@@ -216,7 +238,6 @@ def reporters(ctx, nc, nd):
             ctx.unknown('C10.exit.' + tag, A, 'reporter', why='expected one thread::spawn(closure) reporter (found %d)' % len(cl), sp=b['sp'])
             continue
         cb = ctx.facts.body(cl[0]['def'])
-        canon[tag] = thireq.normalise(thireq.inline_closures(cb.get('thir'), ctx.facts))
         no_inl = ('core::run_chain_progress', 'stats::collect_rhat', ctx.helper_key('nuts.chain_run_progress', 'nuts::NUTSChain::run_progress'), 'stats::split_rhat_mean_ess', 'stats::basic_stats')
         ev = ctx.evaluate(b, no_inline=no_inl)
         owner = [ls for ls in ev.vf.loops if ls.kind == 'loop' and (ls.owner or '').endswith('{spawned}') and not ls.ctx]
@@ -224,6 +245,7 @@ def reporters(ctx, nc, nd):
             ctx.unknown('C10.exit.' + tag, A, 'reporter-loop', why='expected one polling loop in the reporter (found %d)' % len(owner), sp=b['sp'])
             continue
         rl = owner[0]
+        sigs[tag] = reporter_signature(ev, rl)
         chans = ev.events(lambda e: e.op == 'channel')
         # number of channels: trip count of the loop that creates them
         nch = None
@@ -273,11 +295,18 @@ def reporters(ctx, nc, nd):
                             okfin = True
         ctx.check('C10.finished_guard.' + tag, A, 'finished-guard', okfin, expected='n_finished += 1 exactly when the most recent stats of an active chain have n == n_collect + n_discard',
                   found='counter %s' % (keyrepr(fkey) if fkey else 'not identified'), sp=rl.sp, why='completion accounting must match the final message sent by the workers')
-    if len(canon) == 2:
-        d = thireq.first_difference(canon['core'], canon['nuts'])
-        ctx.check('C10.reporters_equal', 'ChainRunner::run_progress ~ NUTS::run_progress', 'reporter', d is None, expected='the two reporter closures are structurally identical',
-                  found='equal' if d is None else 'first difference at %s: %s vs %s' % (d[0], str(d[1])[:120], str(d[2])[:120]),
-                  why='the protocol is implemented twice; a change to one copy only is reported')
+    if len(sigs) == 2:
+        a, b_ = sigs['core'], sigs['nuts']
+        d = None
+        for i in range(max(len(a), len(b_))):
+            x, y = (a[i] if i < len(a) else None), (b_[i] if i < len(b_) else None)
+            if x != y:
+                d = (i, x, y)
+                break
+        ctx.check('C10.reporters_equal', 'ChainRunner::run_progress ~ NUTS::run_progress', 'reporter', d is None,
+                  expected='the two reporters have the same normal form: same polling / receive / accounting / activation loops (trip counts, exits, next-values of every carried place), display calls erased',
+                  found='equal (%d loop summaries)' % len(a) if d is None else 'first difference in loop summary %d: %s vs %s' % (d[0], str(d[1])[:200], str(d[2])[:200]),
+                  why='the protocol is implemented twice; a change to one copy only is reported (compared on value-flow normal forms, so helper extraction or re-binding in one copy is invisible)')
 
 
 def stats_from_returned(ctx, nc, nd):
